@@ -251,3 +251,35 @@ def with_exit(topo, who, at, kind='clean', prop=('clean', 'error'), obey=('clean
     topo.filters[who]['exit_kind'] = kind
     topo.name += f'Exit{who}{at}{kind[0]}'
     return topo
+
+
+def remap_main(maxseq=2, **kw):
+    """subscriptions written in the short forms: 'b>' (topic b received as main) and '>m' (main received as m)"""
+    return Topo('RemapMain', {
+        'S': dict(nout=1, beh=beh('origin', tseq=T2)),
+        'K': dict(srcs=[src('S', topics=[('b', 'main')])]),
+        'M': dict(srcs=[src('S', topics=[('main', 'm'), ('b', 'main')])]),
+    }, maxseq=maxseq, **kw)
+
+
+def two_addr(maxseq=3, **kw):
+    """a NON-balanced publisher bound to two addresses, one synchronized consumer on each"""
+    return Topo('TwoAddr', {
+        'S': dict(nout=2, beh=beh('origin', tseq=[['main']])),
+        'A': dict(srcs=[src('S', out=1)]),
+        'K': dict(srcs=[src('S', out=2)]),
+    }, maxseq=maxseq, **kw)
+
+
+def balance2_relay(maxseq=5, skip=(1, 3), **kw):
+    """balanced split / rejoin where the rejoin J is a relay that does not forward every frame, followed by a sink"""
+    return Topo('Balance2Relay', {
+        'S': dict(nout=2, outbal=True, beh=beh('origin', tseq=[['main']])),
+        'W1': dict(srcs=[src('S', out=1)], nout=1),
+        'W2': dict(srcs=[src('S', out=2)], nout=1),
+        'J': dict(srcs=[src('W1'), src('W2')], srcbal=True, nout=1, beh=beh('relay', skip=skip)),
+        'Z': dict(srcs=[src('J')]),
+    }, maxseq=maxseq, **kw)
+
+
+ALL.update(remap_main=remap_main, two_addr=two_addr, balance2_relay=balance2_relay)
